@@ -17,6 +17,9 @@ CONSTANTS
   AllowEarly = FALSE
   TickInPrune = FALSE
   UntypedDedup = FALSE
+  DeriveFrom <- NoDerive
+  DeriveForget = FALSE
+  SnapFirst = FALSE
 VIEW View
 INVARIANTS TypeOK AllRecoverable AfterCleanPrune
 CHECK_DEADLOCK FALSE
